@@ -5,6 +5,7 @@ VERIF_KILL_MATCH=<re>    regex over "event arg0 arg1" selecting matching events 
 VERIF_FSTRACE=<file>     append one line per matching event (count run)
 VERIF_FSTRACE_MATCH=<re> regex for traced events (default: same as VERIF_KILL_MATCH)
 VERIF_LISTDIR_SEED=<n>   permute os.listdir / os.scandir results
+VERIF_SANDBOX_HELPER=<p> use this (sanitizer instrumented) namespace-sandbox binary
 The body must stay under __main__: Bob's forkserver re-imports the main module in pool workers.
 """
 import os, sys
@@ -79,6 +80,11 @@ def main():
     if ctl:
         with open(os.path.join(ctl, "bobpid"), "w") as f:
             f.write(str(os.getpid()))
+    helper = os.environ.get("VERIF_SANDBOX_HELPER")
+    if helper:
+        # sanitizer build of src/namespace-sandbox (C13): Bob asks this function for the helper to execute
+        import bob.invoker
+        bob.invoker.getSandboxHelperPath = lambda: helper
     from bob.scripts import bob
     return bob(os.path.join(repo, "bob"))
 
